@@ -3,12 +3,12 @@ CONSTANTS
     T = 3
     MaxTime = 9
     MaxChanges = 4
-    MaxReloads = 2
-    Stores = {"A", "B"}
-    Threshold = 0
+    MaxReloads = 3
+    Stores = {"A", "B", "C"}
+    Threshold = 1
     DrainNewStore = TRUE
-    NewStoreSend = "block"
+    NewStoreSend = "drop"
     NCap = 3
 INVARIANTS NoChangeForgotten AtMostTwoRoundsPerInterval NoRoundWithoutNotification
-PROPERTIES RoundCarriesCurrentStore 
+PROPERTIES RoundCarriesCurrentStore EveryChangeCovered
 CHECK_DEADLOCK FALSE
